@@ -216,7 +216,8 @@ class C20System(BuilderSystem):
 
     def canon(self, st):
         g, m = st.g, st.machine
-        return (pt(g.position), str(g.distance_mode), str(g.state.extrusion_mode), tuple(st.registered), tuple(st.ctx_hooks),
+        real_hooks = tuple(getattr(h, "name", "?") for h in getattr(g, "_hooks", ()))     # the builder's own registry (no public getter)
+        return (pt(g.position), str(g.distance_mode), str(g.state.extrusion_mode), tuple(st.registered), tuple(st.ctx_hooks), real_hooks,
                 rf(g.get_parameter("E")), rf(g.get_parameter("F")), rf(st.e_last), st.e_mode,
                 tuple(rf(m.pos[a]) for a in ("X", "Y", "Z")), m.relative)
 
